@@ -691,6 +691,13 @@ def run(ctx):
     r10 = ctx.rule("C05-R10", "the digit scanners hand out None, never a wrapped value, when the number does not fit (premise of NonZero::new(..).unwrap() and of the arithmetic on parsed numbers; shared with C13-R1/R1b)", floor=12)
     c13.run_r1(ctx, r10)
     c13.run_r1b(ctx, r10)
+    # R12: `renumber_aig` reads the new name of every root with `lit_map.get(lit).unwrap()`, and `transfer` finds gates it
+    # has already met through the same map (which keeps the walk linear in the size of the graph): both rest on every
+    # successful transfer recording its result, for hashed duplicates too, and on every root having been transferred
+    from . import c12
+    r12 = ctx.rule("C05-R12", "renumbering: every transferred literal is recorded in the literal map before it is returned (no unwrap on a missing entry, no re-walk of merged gates), and every root is transferred on every successful initialisation (shared with C12-R5/R10)", floor=12)
+    c12.run_r5(ctx, r12)
+    c12.run_r10(ctx, r12)
     from .c05b import run_r11
     r11 = ctx.rule("C05-R11", "an advance by X + c (c a positive constant, scanner calls peeled down to their start offset) passes over bytes that a look-ahead answered on the way: the input can end anywhere and advancing past the buffered data panics", floor=8)
     run_r11(ctx, r11)
